@@ -41,8 +41,9 @@ type KVFaultInst struct {
 	fs     *keyvalue.FS
 	probe  *Inst
 	state  *tla.Value
-	faults []string
-	dirty  bool
+	faults   []string
+	wfFaults []string
+	dirty    bool
 }
 
 func (a *KVFaultAdapter) New(init *tla.Value) (engine.Instance, error) {
@@ -73,7 +74,7 @@ func callClass(what string) string {
 }
 
 func (in *KVFaultInst) Apply(call *tla.Value) any {
-	in.faults = nil
+	in.faults, in.wfFaults = nil, nil
 	if in.state != nil {
 		in.enumerate(call)
 	}
@@ -82,12 +83,13 @@ func (in *KVFaultInst) Apply(call *tla.Value) any {
 }
 
 func (in *KVFaultInst) enumerate(call *tla.Value) {
-	closure, _ := in.probe.closure()
+	closure, cset := in.probe.closure()
 	type outcome struct {
 		o     Obs
 		ctl   *kvctl.Ctl
 		after string
 		probs []string
+		wf    []string
 	}
 	run := func(failAt int64) outcome {
 		ctl := &kvctl.Ctl{}
@@ -108,6 +110,7 @@ func (in *KVFaultInst) enumerate(call *tla.Value) {
 		// afterwards the file system must keep answering: full projection plus a few follow-up operations
 		tree, probs := Project(fs, closure)
 		out.after, out.probs = describe(tree), probs
+		out.wf = WellFormed(tree, cset)
 		for _, f := range []func() Obs{
 			func() Obs { return Do(fs, "mkdir", "zz-after", "", 0, 0755, nil, "") },
 			func() Obs { return Do(fs, "writefile", "zz-after/f", "", 0, 0644, []byte{1}, "") },
@@ -142,8 +145,12 @@ func (in *KVFaultInst) enumerate(call *tla.Value) {
 		switch {
 		case r.o.Panic != "":
 			in.faults = append(in.faults, "panic-after-fault "+cls)
-		case r.o.Err == nil && (r.after != base.after || fmt.Sprint(r.o.Out) != fmt.Sprint(base.o.Out)):
+		case r.o.Err == nil && (base.o.Err != nil || r.after != base.after || fmt.Sprint(r.o.Out) != fmt.Sprint(base.o.Out)):
 			in.faults = append(in.faults, "fault-swallowed "+cls)
+		}
+		// whatever the operation reported, it must not terminate having made an entry unreachable (C03)
+		for _, w := range r.wf {
+			in.wfFaults = append(in.wfFaults, "wf-after-fault "+w+" ("+cls+")")
 		}
 		for _, p := range r.probs {
 			if strings.HasPrefix(p, "panic") {
@@ -160,6 +167,14 @@ func (in *KVFaultInst) CheckResult(call, tr *tla.Value, obs any) []engine.Div {
 	for _, f := range in.faults {
 		if f != last {
 			divs = append(divs, engine.Div{Prop: in.cfg.PropFault, Sig: in.probe.sig(call, tr, f), Detail: "store calls of the run: " + strings.Join(in.ctl.Log, ",")})
+		}
+		last = f
+	}
+	sort.Strings(in.wfFaults)
+	last = ""
+	for _, f := range in.wfFaults {
+		if f != last {
+			divs = append(divs, engine.Div{Prop: in.cfg.PropWF, Sig: in.probe.sig(call, tr, f), Detail: "store calls of the run: " + strings.Join(in.ctl.Log, ",")})
 		}
 		last = f
 	}
